@@ -25,4 +25,8 @@ def run(ctx):
     # a rule replayed into the low-priority stream keeps its at-rule wrappers, and only a real `:host` / `:host(` is taken out of
     # the normal stream: otherwise tokens of the sheet are lost (shared with C17)
     obs += [o for o in cp.host_rules(ctx, 'C08') if re.search(r"\.pair/at-rule-stack|\.only/detection|\.pair/low-priority", o["key"])]
+    # the options are read-only while a sheet is compiled (wave 9; shared by C08, C09, C10, C17)
+    obs += cp.options_untouched_rule(ctx, 'C08')
+    # class names are rewritten exactly in class positions when a prefix is configured (shared with C09)
+    obs += [o for o in cp.class_only_rule(ctx, 'C08') if '.only/condition' in o['key']]
     return obs
